@@ -23,12 +23,12 @@ SVD = ["truncated_svd", "symeig_svd", "randomized_svd", "svd_nonneg"]
 DECOMP = ["parafac", "parafac_random", "parafac_normalize", "parafac_sparsity", "nn_parafac", "nn_parafac_hals", "constrained_nonneg", "constrained_simplex",
           "constrained_l1", "constrained_unimodal", "constrained_smooth", "randomised_parafac", "tucker", "tucker_random", "nn_tucker", "nn_tucker_hals", "nn_tucker_hals_as",
           "parafac2", "parafac2_nn", "tr_als", "tr_als_sampled", "cmtf", "tensor_train", "tensor_train_matrix", "tensor_ring", "robust_pca", "cp_power", "symmetric_power",
-          "masked_parafac", "masked_nn_parafac", "masked_tucker", "masked_robust_pca", "masked_svd", "masked_cp_to_tensor"]
+          "masked_parafac", "masked_nn_parafac", "masked_tucker", "masked_robust_pca", "masked_svd", "masked_cp_to_tensor", "parafac_linesearch_long"]
 PROX = ["prox_non_negative", "soft_thresholding", "l2_prox", "l2_square_prox", "smoothness_prox", "simplex_prox", "soft_sparsity_prox", "monotonicity_prox",
         "unimodality_prox", "hard_thresholding", "normalized_sparsity_prox", "prox_normalize", "svd_thresholding", "procrustes"]
 SOLVERS = ["hals_nnls", "hals_nnls_cold", "fista", "active_set_nnls", "active_set_restart", "admm", "admm_constrained"]
 REG = ["cp_regressor", "tucker_regressor", "cp_plsr"]
-OTHER = ["np_scalar_hyper", "random_cp", "random_tucker", "random_tt", "random_tr", "random_parafac2", "svd_compress", "metrics"]
+OTHER = ["np_scalar_hyper", "random_cp", "random_tucker", "random_tt", "random_tr", "random_parafac2", "svd_compress", "metrics", "huge_units"]
 # public entry points found uncovered by an audit of the per-entry call counts (all keep the data dtype on the reference tree)
 API = ["tt_cross", "tt_oi", "partial_tucker", "initialize_cp", "initialize_tucker", "initialize_constrained", "initialize_parafac2", "cp_lstsq_grad",
        "p2_projections", "sample_khatri_rao", "random_tensor", "random_tt_matrix", "svd_decompress", "error_metrics", "similarity_metrics", "entropy",
@@ -184,6 +184,27 @@ def build(entry, rs, dt):
         o = {"parafac": {"init": "svd"}, "parafac_random": {"init": "random"}, "parafac_normalize": {"normalize_factors": True, "linesearch": bool(rs.rand() < 0.5)},
              "parafac_sparsity": {"sparsity": 0.2}}[entry]
         return lambda: D.parafac(X, R_, n_iter_max=it + (7 if o.get("linesearch") else 0), random_state=sd, return_errors=True, tol=1e-9, **o), real_ok
+    if entry == "parafac_linesearch_long":
+        # hundreds of sweeps: the line search goes through its whole life (accepted jumps, runs of failures after which the
+        # acceleration exponent is reduced, accepted jumps again)
+        cls_ = gen.choice(rs, ["noisy-lowrank", "noisy-lowrank", "generic"])
+        X3 = A(gen.shape(rs, 3, 3, 7))
+        if cls_ == "noisy-lowrank":
+            r0 = int(rs.randint(2, 4))
+            X3 = (ref.cp_dense(None, [rs.standard_normal((s_, r0)) for s_ in X3.shape])[0] + 0.05 * rs.standard_normal(X3.shape)).astype(dt)
+        n_long = int(gen.choice(rs, [120, 300]))
+        if rs.rand() < 0.3:
+            return lambda: D.CP(R_ + 1, n_iter_max=n_long, tol=0, linesearch=True, random_state=sd, init="random").fit_transform(X3), real_ok
+        return lambda: D.parafac(X3, R_ + 1, n_iter_max=n_long, tol=0, linesearch=True, random_state=sd, init=gen.choice(rs, ["random", "svd"]), return_errors=True), real_ok
+    if entry == "huge_units":
+        # finite data in units so large (or small) that squares leave the range of the dtype: results may be inf/0, the dtype stays
+        unit = float(gen.choice(rs, [4e19, 1e25, 1e-30])) if dt == "float32" else float(gen.choice(rs, [1e160, 1e-170]))
+        Xh_ = (X * np.asarray(unit, dtype=rdt)).astype(dt)
+        fh_ = [(f_ * np.asarray(unit, dtype=rdt)).astype(dt) for f_ in fs]
+        rk = gen.shape(rs, order, 1, 3)
+        return lambda: [tl.norm(Xh_), tl.norm(Xh_, axis=0), tl.norm(Xh_, 1), cpm.cp_normalize((None, [f_.copy() for f_ in fh_])), cpm.cp_norm((None, fh_)),
+                        tkm.tucker_normalize((A(rk) * np.asarray(unit, dtype=rdt), [A([s, r]) for s, r in zip(shp, rk)])), P.l2_prox(Xh_.copy(), 0.5),
+                        P.normalized_sparsity_prox(Xh_.reshape(-1).copy(), 2)], real_ok
     if entry == "nn_parafac":
         return lambda: D.non_negative_parafac(Xp, R_, n_iter_max=it, init=gen.choice(rs, ["svd", "random"]), random_state=sd, return_errors=True, normalize_factors=bool(rs.rand() < 0.5)), real_ok
     if entry == "nn_parafac_hals":
